@@ -6,9 +6,10 @@ open Gsu.Proto Gsu.Act
   ins <T> <k> <a> <b>                → 1 | !dup
   del <T> <pred…>                    → count
   upd <T> <nset> (<col> k <v> | <col> p <src> <v>)… <pred…>  → count | !dup
-  insq <pred…>                       → count | !dup     (insert t where pred into u)
+  insq <j> <pred…>                   → count | !dup     (insert t where pred into u; j=1: (t join w), j=2: (w join t))
+  insw <a> <d>                       → 1 | !dup        (insert into w (a, d) key(a))
   state                              → rows of t | rows of u   (k,a,b sorted by k)
- pred (prefix): c <col> <op> <v> | and P Q | or P Q | all
+ pred (prefix): c <col> <op> <v> | cp <col> <off> <op> <v>  (col + off op v) | and P Q | or P Q | all
 -/
 def parseCol : String → Option Col
   | "k" => some .k | "a" => some .a | "b" => some .b | _ => none
@@ -20,6 +21,10 @@ def parseCmp : String → Option Cmp
 def parsePred : Nat → List String → Option (Pred × List String)
   | 0, _ => none
   | _ + 1, "all" :: rest => some (.all, rest)
+  | _ + 1, "cp" :: c :: off :: op :: v :: rest =>
+    match parseCol c, parseInt off, parseCmp op, parseInt v with
+    | some c, some off, some op, some v => some (.cmpp c off op v, rest)
+    | _, _, _, _ => none
   | _ + 1, "c" :: c :: op :: v :: rest =>
     match parseCol c, parseCmp op, parseInt v with
     | some c, some op, some v => some (.cmp c op v, rest)
@@ -63,7 +68,7 @@ def fin (d : Db) : Res → Db × String
 
 def step (d : Db) (l : List String) : Db × String :=
   match l with
-  | ["reset"] => (⟨[], []⟩, "ok")
+  | ["reset"] => (⟨[], [], []⟩, "ok")
   | ["ins", t, k, a, b] =>
     match parseNat t, parseInt k, parseInt a, parseInt b with
     | some t, some k, some a, some b => fin d (insert d t ⟨k, a, b⟩)
@@ -82,11 +87,15 @@ def step (d : Db) (l : List String) : Db × String :=
         | _ => (d, "bad-op")
       | none => (d, "bad-op")
     | _, _ => (d, "bad-op")
-  | "insq" :: rest =>
-    match parsePred 50 rest with
-    | some (p, []) => fin d (insertQuery d p)
-    | _ => (d, "bad-op")
+  | "insq" :: j :: rest =>
+    match parseNat j, parsePred 50 rest with
+    | some j, some (p, []) => fin d (insertQuery d p (j != 0))
+    | _, _ => (d, "bad-op")
+  | ["insw", a, v] =>
+    match parseInt a, parseInt v with
+    | some a, some v => fin d (insertW d a v)
+    | _, _ => (d, "bad-op")
   | ["state"] => (d, showRows d.t ++ " | " ++ showRows d.u)
   | _ => (d, "bad-op")
 
-def main : IO Unit := runS (⟨[], []⟩ : Db) step
+def main : IO Unit := runS (⟨[], [], []⟩ : Db) step
